@@ -124,7 +124,7 @@ static inline void *h_alloc_check(void *p, size_t n) {
         fprintf(stderr, "harness: out of memory (%zu bytes)\n", n);
         printf("STAT harness_out_of_memory 1\n");
         fflush(stdout);
-        _exit(3);
+        _exit(5);
     }
     return p;
 }
